@@ -2,7 +2,7 @@
 Correspondence harness (real AbstractUnit subclasses / AbstractStreams against coq/C18/Model.v),
 stateful history generator, bounded exhaustive enumeration, and the direct oracle (the
 invariant of the property evaluated on the real objects after every operation)."""
-import warnings, itertools
+import warnings, itertools, signal
 from vf import clist, cbool, copt
 
 ID = 'C18'
@@ -43,7 +43,7 @@ TRUSTED = ['model coq/C18/Model.v is hand-written from thermosteam/network.py (S
            'python list/slice index normalisation and object identity (list.index / `in` on objects without __eq__) as transcribed',
            'intermediate states are compared through a 63-bit polynomial checksum (Coq primitive Uint63 under vm_compute, python int '
            'arithmetic mod 2^63); final states are compared in full']
-CASE_TIMEOUT = 300
+CASE_TIMEOUT = 120
 
 _env = {}
 def env():
@@ -77,6 +77,26 @@ class Universe:
         self.units = []
         self.streams = [nw.AbstractStream(None) for _ in range(ns)]
         self.names = 0
+        self.clists = []        # caller-owned python lists (the very objects are passed to the implementation)
+    def load_clists(self, clists):
+        self.clists = [[self.item_value(it) for it in l] for l in clists]
+    def item_value(self, it):
+        if it[0] == 'S': return self.streams[it[1]]
+        if it[0] == 'new':
+            self.names += 1
+            return f'c18_{self.names}'
+        return None
+    def item_code(self, x):
+        if x is None: return 0
+        if isinstance(x, str): return 1
+        k = self.sid(x) if is_real(x) else 999
+        return 999 if k == 999 else 2 + k
+    def item_of(self, x):
+        """element of a caller list as a history item (for the plain operation it stands for)"""
+        if x is None: return ['None']
+        if isinstance(x, str): return ['new']
+        k = self.sid(x) if is_real(x) else 999
+        return ['S', k] if k != 999 else ['None']
     def ports(self, sd, u):
         return self.units[u].ins if sd == 'i' else self.units[u].outs
     def uid(self, unit):
@@ -128,7 +148,8 @@ def observe(U):
                 slots.append([real, i, U.uid(getattr(x, '_sink', None)), U.uid(getattr(x, '_source', None))])
             row.append(slots)
         units.append(row)
-    return {'units': units, 'streams': [[U.uid(s._sink), U.uid(s._source)] for s in U.streams]}
+    return {'units': units, 'streams': [[U.uid(s._sink), U.uid(s._source)] for s in U.streams],
+            'store': [[U.item_code(x) for x in l] for l in U.clists]}
 
 # ------------------------------------------------------------------ preconditions, evaluated on the real objects
 def pre_set(L, i, x):
@@ -237,10 +258,25 @@ def uinsert_pre(U, op):
     if U.uid(t) == 999: return False, False
     return pre_replace(t.outs, s, z), True
 
+XKINDS = ('xnew', 'lslice', 'lextend', 'cappend', 'cset', 'cpop')
+def plain_of(U, op):
+    """the plain operation an operation on a caller's list stands for: the list is read at the call"""
+    n = op[0]
+    item_arg = lambda it: ['S', it[1]] if it[0] == 'S' else (['None'] if it[0] == 'None' else ['Junk'])
+    items = lambda k: [U.item_of(x) for x in U.clists[k]]
+    if n == 'xnew':
+        form = lambda f: f[1] if f[0] == 'f' else ['list', items(f[1])]
+        return ['new', op[1], op[2], op[3], op[4], form(op[5]), form(op[6])]
+    if n == 'lslice': return ['slice', op[1], op[2], op[3], op[4], [item_arg(it) for it in items(op[5])], 'item']
+    if n == 'lextend': return ['extend', op[1], op[2], [item_arg(it) for it in items(op[3])]]
+    return op
+
 def precondition(U, op):
     """(flag, exact): the property's precondition for this operation in the current real state.
     exact=False marks a sufficient condition that presumes the invariant holds (compound operations)."""
     n = op[0]
+    if n in ('cappend', 'cset', 'cpop'): return True, True
+    if n in ('xnew', 'lslice', 'lextend'): return precondition(U, plain_of(U, op))
     if n == 'set': return pre_set(U.ports(op[1], op[2]), op[3], U.arg(op[4])), True
     if n == 'slice':
         f, s = fixed_of(U, op[1], op[2])
@@ -331,6 +367,20 @@ def apply_op(U, op):
     elif n == 'xslice':
         _, sd, u, lo, hi, st, args = op
         U.ports(sd, u)[lo:hi:st] = [U.arg(a) for a in args]
+    elif n == 'xnew':
+        _, nin, nout, fin, fout, fi, fo = op
+        val = lambda f: form_value(U, f[1]) if f[0] == 'f' else U.clists[f[1]]      # the caller's list object itself
+        unit = unit_class(nin, nout, fin, fout)(None, ins=val(fi), outs=val(fo))
+        U.units.append(unit)
+        for l in (unit.ins, unit.outs):
+            for x in l:
+                if is_real(x) and U.sid(x) == 999:
+                    U.streams.append(x)
+    elif n == 'lslice': U.ports(op[1], op[2])[op[3]:op[4]] = U.clists[op[5]]
+    elif n == 'lextend': U.ports(op[1], op[2]).extend(U.clists[op[3]])
+    elif n == 'cappend': U.clists[op[1]].append(U.item_value(op[2]))
+    elif n == 'cset': U.clists[op[1]][op[2]] = U.item_value(op[3])
+    elif n == 'cpop': U.clists[op[1]].pop()
     elif n == 'insert': U.ports(op[1], op[2]).insert(op[3], U.arg(op[4]))
     elif n == 'append': U.ports(op[1], op[2]).append(U.arg(op[3]))
     elif n == 'extend': U.ports(op[1], op[2]).extend([U.arg(a) for a in op[3]])
@@ -374,12 +424,29 @@ def apply_op(U, op):
     else:
         raise ValueError(n)
 
+class OpTimeout(Exception):
+    pass
+
+def guarded_apply(U, op, secs=2):
+    """apply_op under a short alarm: with aliased port lists an operation may never return (a list that is
+    extended while it is being iterated); an outer alarm of the driver is re-armed afterwards"""
+    def handler(sig, frm): raise OpTimeout()
+    old_handler = signal.signal(signal.SIGALRM, handler)
+    remaining = signal.alarm(secs)
+    try:
+        return apply_op(U, op)
+    finally:
+        signal.alarm(0)
+        signal.signal(signal.SIGALRM, old_handler)
+        if remaining: signal.alarm(max(1, remaining))
+
 def setup_ops(case):
     return [['new', u[0], u[1], u[2], u[3], ['none'], ['none']] for u in case['units']]
 
 def exec_history(case, ops, per_step=None, pre_step=None):
     """run setup + ops on fresh real objects; returns the per-operation records"""
     U = Universe(case['ns'])
+    U.load_clists(case.get('clists', []))
     recs = []
     with warnings.catch_warnings():
         warnings.simplefilter('ignore')
@@ -388,7 +455,12 @@ def exec_history(case, ops, per_step=None, pre_step=None):
             before = pre_step(U, op) if pre_step is not None else None
             err = None
             try:
-                apply_op(U, op)
+                guarded_apply(U, op)
+            except OpTimeout:
+                # the operation does not return: report it and abandon the history (the lists may be huge by now)
+                rec = {'err': 'EDim:Timeout', 'pre': pre, 'exact': exact, 'obs': recs[-1]['obs'] if recs else observe(U), 'timeout': True}
+                recs.append(rec)
+                return recs, f'{op[0]}: operation {op} does not return (a port list keeps growing: it is aliased with its argument)'
             except Exception as ex:
                 err = ERR.get(type(ex).__name__, 'EDim:' + type(ex).__name__)
             rec = {'err': err, 'pre': pre, 'exact': exact, 'obs': observe(U)}
@@ -416,6 +488,12 @@ def hash_obs(h, o):
     h = hmix(h, len(o['streams']))
     for k, s in o['streams']:
         h = hopt(hopt(h, k), s)
+    return h
+def hash_store(h, st):
+    h = hmix(h, len(st))
+    for l in st:
+        h = hmix(h, len(l))
+        for c in l: h = hmix(h, c)
     return h
 def hstep(h, cmp, rec):
     h = hmix(hmix(h, ECODE.get(rec['err'], 9)), (1 if rec['pre'] else 0) if cmp else 2)
@@ -445,17 +523,20 @@ def run_impl(case):
             total = (total + h) % HP
         return {'sum': str(total), 'n': len(A_of(case)) ** case['depth'], 'tags': errs, 'changed': changed}
     out = {'h': []}
+    xmode = 'clists' in case
     for ops in case['histories']:
         recs, _ = exec_history(case, ops)
         inpre = True
         cmps = []
         h = hash_obs(0, recs[n0 - 1]['obs'])
+        if xmode: h = hash_store(h, recs[n0 - 1]['obs']['store'])
         for r in recs[n0:]:
             # flags of sufficient-only conditions are compared only while the history is inside the preconditions
             cmp = bool(r['exact'] or (inpre and r['pre']))
             inpre = inpre and r['pre']
             cmps.append(cmp)
             h = hstep(h, cmp, r)
+            if xmode: h = hash_store(h, r['obs']['store'])
         out['h'].append({'hash': str(h), 'cmps': cmps, 'errs': [r['err'] for r in recs[n0:]], 'pres': [r['pre'] for r in recs[n0:]],
                          'final': recs[-1]['obs'], 'changed': any(a['obs'] != b['obs'] for a, b in zip(recs[n0 - 1:], recs[n0:]))})
     return out
@@ -482,6 +563,17 @@ def cport(p):
     if p is None: return 'PNone'
     if p[0] == 'idx': return f'(PIndex {cz(p[1])})'
     return f'(PArg {carg(p[1])})'
+def cxop(op):
+    n = op[0]
+    citm = lambda it: 'INew' if it[0] == 'new' else (f'(IReal {it[1]})' if it[0] == 'S' else 'INone')
+    cxf = lambda f: f'(XF {cform(f[1])})' if f[0] == 'f' else f'(XV {f[1]})'
+    if n == 'xnew': return f'(XNewUnit {op[1]} {op[2]} {cbool(op[3])} {cbool(op[4])} {cxf(op[5])} {cxf(op[6])})'
+    if n == 'lslice': return f'(XSlice {csd(op[1])} {op[2]} {copt(op[3], cz)} {copt(op[4], cz)} {op[5]})'
+    if n == 'lextend': return f'(XExtend {csd(op[1])} {op[2]} {op[3]})'
+    if n == 'cappend': return f'(XCAppend {op[1]} {citm(op[2])})'
+    if n == 'cset': return f'(XCSet {op[1]} {op[2]} {citm(op[3])})'
+    if n == 'cpop': return f'(XCPop {op[1]})'
+    return f'(XOp {cop(op)})'
 def cop(op):
     n = op[0]
     if n == 'set': return f'(OSet {csd(op[1])} {op[2]} {cz(op[3])} {carg(op[4])})'
@@ -525,12 +617,20 @@ def coq_case(case, out):
     if 'histories' not in case:
         return (f'(check_enum {STEP} (run ({w0}) {clist(case["prefix"], cop)}) {clist(case["alphabet"], cop)} '
                 f'{case["depth"]} ({out["sum"]})%uint63)')
-    terms = [f'check_hist {STEP} w0 {clist(ops, cop)} {clist(r["cmps"], cbool)} ({r["hash"]})%uint63 {cobs(r["final"])}'
-             for ops, r in zip(case['histories'], out['h'])]
+    if 'clists' in case:
+        st = clist(case['clists'], lambda l: clist(l, citem))
+        terms = [f'check_xhist w0 {st} {clist(ops, cxop)} {clist(r["cmps"], cbool)} ({r["hash"]})%uint63 {cobs(r["final"])} '
+                 f'{clist(r["final"]["store"], lambda l: clist(l, str))}' for ops, r in zip(case['histories'], out['h'])]
+    else:
+        terms = [f'check_hist {STEP} w0 {clist(ops, cop)} {clist(r["cmps"], cbool)} ({r["hash"]})%uint63 {cobs(r["final"])}'
+                 for ops, r in zip(case['histories'], out['h'])]
     return f'(let w0 := {w0} in ' + (' && '.join(terms) if terms else 'true') + ')'
 
 def coq_show(case, out):
     ops = histories_of(case)[0]
+    if 'clists' in case:
+        st = clist(case['clists'], lambda l: clist(l, citem))
+        return f'(xtrace (run (empty_world {case["ns"]}) {clist(setup_ops(case), cop)}, {st}) {clist(ops, cxop)})'
     return f'(trace {STEP} (run (empty_world {case["ns"]}) {clist(setup_ops(case), cop)}) {clist(ops, cop)})'
 
 def nontrivial(case, out):
@@ -599,7 +699,7 @@ def snapshot(U, op):
     elif n in ('append', 'remove'): args['x'] = U.arg(op[3])
     elif n == 'replace': args['a'] = U.arg(op[3]); args['x'] = U.arg(op[4])
     elif n == 'disc': args['x'] = U.arg(op[2])
-    return {'lists': snap, 'args': args, 'nunits': len(U.units)}
+    return {'lists': snap, 'args': args, 'nunits': len(U.units), 'clists': [list(l) for l in U.clists]}
 
 def positional(U, op, before):
     """expected contents of every port list after a successful single-port operation, by object identity"""
@@ -663,6 +763,31 @@ def positional(U, op, before):
                 if m: return m
     return None
 
+def ownership(U, op, before):
+    """a unit owns its port lists: no port list is the list object of another port list or of the caller; an
+    operation that is given a caller's list leaves that list as it was; the caller's own edits change no port list"""
+    owners = {}
+    for k, unit in enumerate(U.units):
+        for nm, L in (('ins', unit.ins), ('outs', unit.outs)):
+            name = f'unit {k}.{nm}'
+            lo = L._streams
+            for j, cl in enumerate(U.clists):
+                if lo is cl: return f'{name}: its port list IS the caller\'s list object #{j}'
+            if id(lo) in owners: return f'{name}: shares one list object with {owners[id(lo)]}'
+            owners[id(lo)] = name
+    if before is None: return None
+    if op[0] in ('cappend', 'cset', 'cpop'):
+        for (k, sd), l in before['lists'].items():
+            now = list(U.ports(sd, k))
+            if len(now) != len(l) or any(a is not b for a, b in zip(now, l)):
+                return f'unit {k}.{"ins" if sd == "i" else "outs"}: changed when the caller edited its own list #{op[1]}'
+    else:
+        for j, l in enumerate(before['clists']):
+            now = U.clists[j]
+            if len(now) != len(l) or any(a is not b for a, b in zip(now, l)):
+                return f'caller\'s list #{j} was modified by the operation it was (or was not even) passed to'
+    return None
+
 def oracle(case):
     for h, ops in enumerate(histories_of(case)):
         state = {'inpre': True, 'n': 0}
@@ -671,13 +796,16 @@ def oracle(case):
             state['n'] += 1
             state['inpre'] = state['inpre'] and rec['pre']
             if not state['inpre']: return 'left-preconditions'
-            msg = invariant(U)
+            msg = invariant(U) or ownership(U, op, rec.get('before'))
             if not msg and rec['err'] is None:
                 msg = positional(U, op, rec['before'])
             if msg:
                 return f'{op[0]}: after operation #{state["n"] - n0} {op} of history {h}: {msg}'
             return None
-        _, stop = exec_history(case, ops, per_step, snapshot)
+        recs, stop = exec_history(case, ops, per_step, snapshot)
+        if recs and recs[-1].get('timeout'):
+            if state['inpre'] and recs[-1]['pre']: return stop
+            continue
         if stop and stop != 'left-preconditions':
             return stop
     return None
@@ -686,6 +814,7 @@ def shrink(case):
     """keep the first failing history and delete operations while the oracle still fails"""
     for ops in histories_of(case):
         c = {'kind': 'shrunk', 'units': case['units'], 'ns': case['ns'], 'histories': [list(ops)]}
+        if 'clists' in case: c['clists'] = case['clists']
         if oracle(c):
             break
     else:
@@ -703,7 +832,7 @@ def shrink(case):
 def finding_key(case, msg):
     op = msg.split(':')[0]
     kind = ('dangling' if 'is not among its' in msg else 'listed' if 'is listed but' in msg
-            else 'position' if ('vacated port' in msg or 'port changed' in msg or 'ports, expected' in msg) else 'other')
+            else 'ownership' if ('list object' in msg or "caller's list" in msg or 'caller edited' in msg) else 'position' if ('vacated port' in msg or 'port changed' in msg or 'ports, expected' in msg) else 'other')
     return f'C18:{op}:{kind}'
 
 # ------------------------------------------------------------------ generators
@@ -731,7 +860,7 @@ def member(rng, U, sd, u):
 
 OPS = ['set'] * 10 + ['slice'] * 6 + ['xslice'] * 2 + ['insert'] * 3 + ['append'] * 4 + ['extend'] * 2 + ['replace'] * 4 + ['pop'] * 4 + \
       ['remove'] * 4 + ['clear'] * 1 + ['empty'] * 1 + ['disc'] * 4 + ['discboth'] * 2 + ['uu'] * 3 + ['udisc'] * 2 + \
-      ['uinsert'] * 4 + ['take'] * 2 + ['repl'] * 2 + ['reconnect'] * 2 + ['new'] * 1
+      ['uinsert'] * 4 + ['take'] * 2 + ['repl'] * 2 + ['reconnect'] * 2 + ['new'] * 2
 
 def gen_op(rng, U, valid):
     nu = len(U.units)
@@ -857,7 +986,7 @@ def gen_op(rng, U, valid):
         nin, nout = rng.randint(1, 3), rng.randint(1, 3)
         fin, fout = rng.random() < 0.5, rng.random() < 0.5
         used = set()
-        def form(fixed, size, allow_over):
+        def form(fixed, size, allow_over, sd_):
             r = rng.random()
             if r < 0.2: return ['none']
             if r < 0.35: return ['empty']
@@ -865,6 +994,9 @@ def gen_op(rng, U, valid):
                 q = rng.random()
                 if q < 0.6:
                     c = [k for k in range(len(U.streams)) if k not in used]
+                    # the constructor "steals" a stream that is docked on that side of another unit: prefer those
+                    docked = [k for k in c if ptr(U.streams[k], sd_) is not None]
+                    if docked and rng.random() < 0.6: c = docked
                     if c:
                         k = rng.choice(c); used.add(k); return ['S', k]
                 if q < 0.8: return ['None']
@@ -875,10 +1007,11 @@ def gen_op(rng, U, valid):
                 return ['one', it]
             k = rng.randint(0, size if (fixed and not allow_over) else size + 1)
             return ['list', [item() for _ in range(k)]]
-        fi = form(fin, nin, True)
+        fi = form(fin, nin, True, 'i')
         if fi[0] == 'list' and fin and len(fi[1]) > nin:
             fi = ['list', [it if it[0] != 'S' else ['new'] for it in fi[1]]]
-        fo = form(fout, nout, False)
+        used = set()
+        fo = form(fout, nout, False, 'o')
         return ['new', nin, nout, fin, fout, fi, fo]
     raise ValueError(n)
 
@@ -906,7 +1039,9 @@ def gen_history(rng, units, ns, nops, p_valid):
             op = gen_op(rng, U, rng.random() < p_valid)
             ops.append(op)
             try:
-                apply_op(U, op)
+                guarded_apply(U, op)
+            except OpTimeout:
+                break
             except Exception:
                 pass
     return ops
@@ -938,6 +1073,71 @@ def exhaustive_cases(rng, depth, nprefix, A=None, empty_prefix=True):
     return [{'kind': f'exhaustive-depth{depth}', 'units': EXH_UNITS, 'ns': 5, 'prefix': p, 'alphabet': A, 'depth': depth}
             for p in prefixes]
 
+def gen_alias_case(rng, nops):
+    """histories in which python list objects owned by the caller are passed to constructors, slice assignment
+    and extend(), passed again later, and edited by the caller in between (stateful, all choices from rng)"""
+    nu = rng.randint(2, 3); ns = rng.randint(5, 8)
+    units = gen_universe(rng, 3)[:nu] if nu == 3 else [[1, 1, True, True], [2, 1, False, True]]
+    def item():
+        r = rng.random()
+        return ['S', rng.randrange(ns)] if r < 0.75 else (['None'] if r < 0.9 else ['new'])
+    clists = []
+    for _ in range(rng.randint(2, 3)):
+        l = []
+        for _ in range(rng.randint(0, 3)):
+            it = item()
+            if it[0] != 'S' or it not in l: l.append(it)
+        clists.append(l)
+    case = {'kind': 'alias', 'units': units, 'ns': ns, 'clists': clists}
+    U = Universe(ns); U.load_clists(clists)
+    ops = []
+    def candidate():
+        r = rng.random(); k = rng.randrange(len(U.clists)); nuu = len(U.units)
+        if r < 0.3:
+            fin, fout = rng.random() < 0.35, rng.random() < 0.35
+            nin, nout = rng.randint(1, 3), rng.randint(1, 3)
+            side = rng.choice(['i', 'o', 'b'])
+            other = lambda: ['f', rng.choice([['none'], ['none'], ['empty']])]
+            fi = ['v', k] if side in 'ib' else other()
+            fo = ['v', k if rng.random() < 0.5 else rng.randrange(len(U.clists))] if side in 'ob' else other()
+            return ['xnew', nin, nout, fin, fout, fi, fo]
+        if r < 0.55:
+            q = rng.random()
+            if q < 0.5: return ['cappend', k, item()]
+            if q < 0.8: return ['cset', k, rng.randrange(max(1, len(U.clists[k]) + (0 if rng.random() < 0.9 else 1))), item()]
+            return ['cpop', k]
+        sd = rng.choice('io'); u = rng.randrange(nuu)
+        if r < 0.67: return ['lslice', sd, u, rng.choice([None, None, 0, 1, -1]), rng.choice([None, None, 1, 2]), k]
+        if r < 0.8: return ['lextend', sd, u, k]
+        return gen_op(rng, U, True)
+    with warnings.catch_warnings():
+        warnings.simplefilter('ignore')
+        for op in setup_ops(case):
+            apply_op(U, op)
+        for _ in range(nops):
+            valid = rng.random() < 0.8
+            op = candidate()
+            for _ in range(5):
+                if not valid: break
+                try:
+                    if precondition(U, op)[0]: break
+                except Exception:
+                    pass
+                op = candidate()
+            if op[0] == 'xnew' and not precondition(U, op)[0]:
+                # a constructor list with the same stream twice / an oversize outs list raises in the middle of the
+                # construction (outside the modelled domain): the caller edits its list instead
+                op = ['cpop', op[5][1] if op[5][0] == 'v' else op[6][1]]
+            ops.append(op)
+            try:
+                guarded_apply(U, op)
+            except OpTimeout:
+                break
+            except Exception:
+                pass
+    case['histories'] = [ops]
+    return case
+
 def gen_cases(rng, tier):
     env()
     cases = []
@@ -948,6 +1148,8 @@ def gen_cases(rng, tier):
         nops = rng.randint(5, 50)
         p_valid = rng.choice([1.0, 1.0, 0.9, 0.8, 0.8, 0.5])
         cases.append({'kind': 'random', 'units': units, 'ns': ns, 'histories': [gen_history(rng, units, ns, nops, p_valid)]})
+    for k in range(60 if tier == 'quick' else 600):
+        cases.append(gen_alias_case(rng, rng.randint(4, 25)))
     A = alphabet(EXH_UNITS, 5)
     small = A[::3]
     if tier == 'quick':
@@ -964,6 +1166,8 @@ def search_cases(rng, tier):
     for k in range(300):
         units = gen_universe(rng, rng.randint(3, 5)); ns = rng.randint(5, 8)
         out.append({'kind': 'random', 'units': units, 'ns': ns, 'histories': [gen_history(rng, units, ns, rng.randint(5, 40), 1.0)]})
+    for k in range(100):
+        out.append(gen_alias_case(rng, rng.randint(3, 15)))
     return out
 
 # minimised past failures (run first)
@@ -977,4 +1181,11 @@ CORPUS.append(
     {'kind': 'corpus', 'units': [[2, 1, False, True], [1, 1, True, True]], 'ns': 3,
      'histories': [[['set', 'o', 0, 0, ['S', 0], 'item'], ['set', 'i', 0, 0, ['S', 0], 'item'],
                     ['uinsert', 0, ['S', 0], ['arg', ['S', 0]], None], ['uinsert', 0, ['S', 0], ['idx', 0], ['arg', ['S', 0]]]]]})
+CORPUS.append(
+    # ownership of port lists: one python list object builds two mixers (ins) / two splitters (outs), then the caller edits it
+    {'kind': 'corpus', 'units': [[1, 1, True, True]], 'ns': 6, 'clists': [[['S', 0], ['S', 1]], [['S', 2], ['None']]],
+     'histories': [[['xnew', 2, 1, False, True, ['v', 0], ['f', ['none']]], ['xnew', 2, 1, False, True, ['v', 0], ['f', ['none']]],
+                    ['cappend', 0, ['S', 3]], ['xnew', 1, 2, True, False, ['f', ['none']], ['v', 1]],
+                    ['xnew', 1, 2, True, False, ['f', ['none']], ['v', 1]], ['cset', 1, 0, ['S', 4]], ['set', 'i', 2, 0, ['S', 5], 'item'],
+                    ['lextend', 'i', 1, 0], ['cpop', 0]]]})
 WITNESSES = []
